@@ -445,6 +445,9 @@ Record an := mkAn
     a_completed : list task;            (* tasks whose callback was released (returned or panicked) *)
     a_waits : list (nat * list task);   (* Wait calls in progress: client, tasks added before it started *)
     a_flushes : list (nat * list task); (* Flush calls in progress: client, tasks added before it started *)
+    a_tick1 : option batch;
+       (* Some C: the previous step was a tick delivered while a flusher was alive (guarded), no call was in
+          progress, no callback parked, no flusher held at a gate, and C was in the container *)
     a_ok : bool }.
 
 Definition find_parked (o : obs) (m : Z) : batch :=
@@ -466,6 +469,16 @@ Definition an_step (a : an) (st : act * obs) : an :=
   let flushes := match ac with
                  | AFlush c => if nth_idle prev c then a_flushes a ++ [(c, a_returned a)] else a_flushes a
                  | _ => a_flushes a end in
+  (* the periodic flush: the second of two ticks in a row (the first one may only reset `commanded`) has
+     taken everything that was pending out of the container - also for a flusher restarted after an idle quit *)
+  let calm := forallb (fun b => b) (oidle prev) && match oparked prev with [] => true | _ => false end &&
+              oguard prev && negb (oqpark prev) && negb (ospark prev) && negb (obenter prev) in
+  let tick1 := match ac with
+               | ATick => if calm then match ocont prev with [] => None | C => Some C end else None
+               | _ => None end in
+  let tick_ok := match ac, a_tick1 a with
+                 | ATick, Some C => forallb (fun t => negb (existsb (Z.eqb t) (ocont o))) C
+                 | _, _ => true end in
   let released := match ac with ARel m _ => find_parked prev m | _ => [] end in
   (* the batch a callback holds is the same when the callback returns as when it started, and
      Sync's fn sees the container as it is *)
@@ -493,11 +506,11 @@ Definition an_step (a : an) (st : act * obs) : an :=
                  (match pending' with [] => perm_z visible started | _ => true end) &&
                  (* pending tasks have an owner: a live flusher loop, or a flusher about to flush *)
                  (match ocont o with [] => true | _ => oguard o || obflush o || ospark o end) in
-  mkAn o started returned pending' completed waits' flushes'
-       (a_ok a && wait_ok && flush_ok && cons_ok && content_ok).
+  mkAn o started returned pending' completed waits' flushes' tick1
+       (a_ok a && wait_ok && flush_ok && tick_ok && cons_ok && content_ok).
 
 Definition analyse (c : icase) : an :=
-  fold_left an_step (csteps c) (mkAn (obs0 (cn c)) [] [] [] [] [] [] true).
+  fold_left an_step (csteps c) (mkAn (obs0 (cn c)) [] [] [] [] [] [] None true).
 
 (* at the end of a log that ends with a drain (releases, a Wait, releases) every call
    has returned, nothing is parked, and every accepted task has been executed *)
